@@ -399,6 +399,13 @@ async fn drive(cfg: Cfg, ops: Vec<Op>, listener: &TcpListener) -> String {
                 }
             }
             Op::Close => {
+                // the accept thread exits only after its last dispatch is complete
+                if gap {
+                    if let Some(h) = accept.as_ref() {
+                        verif::inc_counter(h);
+                    }
+                    gap = false;
+                }
                 accept = None;
             }
         }
